@@ -245,14 +245,6 @@ func runUnguardedRules(p *Program, id string) ([]*Gen, []string) {
 			errs = append(errs, "contract-stale: "+d.Kind+" "+name+": package not loaded")
 			continue
 		}
-		fn := p.LookupFunc(sp.Pkg.Path(), kv["func"])
-		if fn == nil {
-			errs = append(errs, "contract-stale: "+d.Kind+" "+name+": function "+kv["func"]+" not found")
-			continue
-		}
-		g := NewGen(p, nil, nil)
-		g.Label = d.Kind + " " + name
-		n := 0
 		var fns []*ssa.Function
 		var collect func(f *ssa.Function)
 		collect = func(f *ssa.Function) {
@@ -261,7 +253,30 @@ func runUnguardedRules(p *Program, id string) ([]*Gen, []string) {
 				collect(a)
 			}
 		}
-		collect(fn)
+		if kv["func"] == "*" {
+			// every function and method of the package (sorted for stable obligation names)
+			var all []*ssa.Function
+			for f := range p.AllFuncs {
+				if f.Pkg == sp && f.Parent() == nil && f.Blocks != nil && f.Synthetic == "" {
+					all = append(all, f)
+				}
+			}
+			sort.Slice(all, func(i, j int) bool { return fullName(all[i]) < fullName(all[j]) })
+			for _, f := range all {
+				collect(f)
+			}
+		} else {
+			fn := p.LookupFunc(sp.Pkg.Path(), kv["func"])
+			if fn == nil {
+				errs = append(errs, "contract-stale: "+d.Kind+" "+name+": function "+kv["func"]+" not found")
+				continue
+			}
+			collect(fn)
+		}
+		g := NewGen(p, nil, nil)
+		g.Label = d.Kind + " " + name
+		n := 0
+		perFn := map[string]int{}
 		for _, f := range fns {
 			for _, b := range f.Blocks {
 				for _, in := range b.Instrs {
@@ -270,7 +285,17 @@ func runUnguardedRules(p *Program, id string) ([]*Gen, []string) {
 						continue
 					}
 					n++
-					o := &Oblig{Name: fmt.Sprintf("%s.%s#%s:%s.%d", kv["in"], kv["func"], d.Kind, name, n), Kind: d.Kind, Goal: "true", Pre: "unsat", AutoSite: true,
+					oname := fmt.Sprintf("%s.%s#%s:%s.%d", kv["in"], kv["func"], d.Kind, name, n)
+					if kv["func"] == "*" {
+						top := f
+						for top.Parent() != nil {
+							top = top.Parent()
+						}
+						_, short := ContractName(top)
+						perFn[short]++
+						oname = fmt.Sprintf("%s.%s#%s:%s.%d", kv["in"], short, d.Kind, name, perFn[short])
+					}
+					o := &Oblig{Name: oname, Kind: d.Kind, Goal: "true", Pre: "unsat", AutoSite: true,
 						Pos: strings.TrimPrefix(p.Fset.Position(in.Pos()).String(), p.Repo+"/"), Text: d.Kind + " " + name + ": " + desc + " — " + strings.TrimSpace(d.Text[j+1:])}
 					if d.Kind == "unguarded" {
 						allow := splitList(kv["allow"], ",")
@@ -351,6 +376,10 @@ func pathMatches(got, pat string) bool {
 	parts := strings.Split(pat, "*")
 	pos := 0
 	for i, part := range parts {
+		if i == len(parts)-1 && i > 0 {
+			// the last literal run must be a suffix (a "*" before it may swallow nested brackets)
+			return strings.HasSuffix(got[pos:], part)
+		}
 		k := strings.Index(got[pos:], part)
 		if k < 0 {
 			return false
